@@ -74,8 +74,52 @@ type Input struct {
 	Op    string `json:"op"`
 	Who   string `json:"who"`
 
-	// query / ident / gendoc: free-form
-	Q map[string]any `json:"q,omitempty"`
+	// ident (C20): counterparty spellings to try for protocol Pid
+	Ids []IdEnt `json:"ids"`
+	// gendoc (C17): abstract genesis document
+	G GenDoc `json:"g"`
+	// query (C13)
+	Q QueryDesc `json:"q"`
+}
+
+// IdEnt is one counterparty spelling: the string, its characters and the domain it denotes
+// according to the specification (-1 = none).
+type IdEnt struct {
+	Cp    string   `json:"cp"`
+	Chars []string `json:"chars"`
+	Dom   int64    `json:"dom"`
+}
+
+type GenCC struct {
+	P     string   `json:"p"`
+	Cp    string   `json:"cp"`
+	Chars []string `json:"chars"`
+}
+
+// GenDoc describes an orbiter genesis document abstractly.
+type GenDoc struct {
+	PP     []string   `json:"pp"`   // paused protocol ids (names, "P99" = out of range, may repeat)
+	PCC    []GenCC    `json:"pcc"`  // paused cross-chain ids ("NIL" protocol = nil entry)
+	PA     []string   `json:"pa"`   // paused action ids
+	Amts   []AmtEntry `json:"amts"` // dispatched amounts
+	Cnts   []CntEntry `json:"cnts"` // dispatched counts
+	Params int64      `json:"params"`
+}
+
+// QueryDesc describes one statistics query walk or direct lookup.
+type QueryDesc struct {
+	Kind       string `json:"kind"` // "amounts" | "counts"
+	By         string `json:"by"`   // "src" | "dst" | "direct"
+	Pid        string `json:"pid"`
+	Limit      int64  `json:"limit"`
+	Walk       string `json:"walk"` // "key" | "offset"
+	Reverse    bool   `json:"reverse"`
+	CountTotal bool   `json:"countTotal"`
+	Sp         string `json:"sp"`
+	Sc         string `json:"sc"`
+	Dp         string `json:"dp"`
+	Dc         string `json:"dc"`
+	Denom      string `json:"denom"`
 }
 
 func (in *Input) normalise() {
@@ -101,6 +145,30 @@ func (in *Input) normalise() {
 	}
 	if in.Faults == nil {
 		in.Faults = []string{}
+	}
+	if in.Ids == nil {
+		in.Ids = []IdEnt{}
+	}
+	for i := range in.Ids {
+		in.Ids[i].Chars = charsOf(in.Ids[i].Cp)
+	}
+	if in.G.PP == nil {
+		in.G.PP = []string{}
+	}
+	if in.G.PCC == nil {
+		in.G.PCC = []GenCC{}
+	}
+	for i := range in.G.PCC {
+		in.G.PCC[i].Chars = charsOf(in.G.PCC[i].Cp)
+	}
+	if in.G.PA == nil {
+		in.G.PA = []string{}
+	}
+	if in.G.Amts == nil {
+		in.G.Amts = []AmtEntry{}
+	}
+	if in.G.Cnts == nil {
+		in.G.Cnts = []CntEntry{}
 	}
 	if in.AmtC == "" {
 		in.AmtC = "OK"
